@@ -77,37 +77,69 @@ func gocvCheck(body []ast.Term) string {
 	if strings.Join(a, ",") != strings.Join(b, ",") {
 		return "order of the literals that are not negated atoms changed"
 	}
-	// a negated atom comes after the premises that bind its variables, whenever some premises of the body bind them
-	all := map[ast.Variable]bool{}
-	for _, p := range body {
-		switch p.(type) {
-		case ast.Atom, ast.Eq:
-			for v := range gocvVars(p) {
-				all[v] = true
+	// a negated atom comes after the premises that give its variables a value, whenever the body gives them one at all.
+	// Values flow as they do at evaluation time: a positive atom gives every variable of it a value; X = c gives X one;
+	// X = Y only ties the two together - both have a value as soon as either gets one (before or after the equality).
+	type binder struct {
+		parent map[ast.Variable]ast.Variable
+		bound  map[ast.Variable]bool // per class representative
+	}
+	newBinder := func() *binder {
+		return &binder{parent: map[ast.Variable]ast.Variable{}, bound: map[ast.Variable]bool{}}
+	}
+	var find func(b *binder, v ast.Variable) ast.Variable
+	find = func(b *binder, v ast.Variable) ast.Variable {
+		p, ok := b.parent[v]
+		if !ok || p == v {
+			return v
+		}
+		return find(b, p)
+	}
+	step := func(b *binder, p ast.Term) {
+		switch q := p.(type) {
+		case ast.Atom:
+			for v := range gocvVars(q) {
+				b.bound[find(b, v)] = true
+			}
+		case ast.Eq:
+			lv, lIsVar := q.Left.(ast.Variable)
+			rv, rIsVar := q.Right.(ast.Variable)
+			switch {
+			case lIsVar && rIsVar:
+				l, r := find(b, lv), find(b, rv)
+				if l != r {
+					b.parent[l] = r
+					b.bound[r] = b.bound[r] || b.bound[l]
+				}
+			case lIsVar:
+				b.bound[find(b, lv)] = true
+			case rIsVar:
+				b.bound[find(b, rv)] = true
 			}
 		}
 	}
-	before := map[ast.Variable]bool{}
+	whole := newBinder()
+	for _, p := range body {
+		step(whole, p)
+	}
+	sofar := newBinder()
 	for _, p := range out.Premises {
-		switch p.(type) {
-		case ast.Atom, ast.Eq:
-			for v := range gocvVars(p) {
-				before[v] = true
-			}
-		case ast.NegAtom:
+		if na, isNeg := p.(ast.NegAtom); isNeg {
 			bindable, bound := true, true
-			for v := range gocvVars(p) {
-				if !all[v] {
+			for v := range gocvVars(na) {
+				if !whole.bound[find(whole, v)] {
 					bindable = false
 				}
-				if !before[v] {
+				if !sofar.bound[find(sofar, v)] {
 					bound = false
 				}
 			}
 			if bindable && !bound {
-				return fmt.Sprintf("%v is placed before the premises that bind its variables", p)
+				return fmt.Sprintf("%v is placed before the premises that give its variables a value", p)
 			}
+			continue
 		}
+		step(sofar, p)
 	}
 	return ""
 }
